@@ -751,7 +751,7 @@ def jax_consts(spec):
     for nm, (ty, val, kind) in spec.consts.items():
         if ty in ("f", "v", "m"):
             arr = np.asarray(val, dtype=np.float32)
-        elif ty == "iv":
+        elif ty in ("iv", "i"):
             arr = np.asarray(val, dtype=np.int32)
         else:
             arr = np.asarray(val)
@@ -880,6 +880,7 @@ class _G:
         self.counter = 0
         self.n = self.spec.n = int(rng.integers(2, 5))
         self.used = set()
+        self.cur = frozenset()  # inputs the operands picked so far for the current statement depend on
 
     # -- helpers
     def fresh(self, prefix="t"):
@@ -927,10 +928,20 @@ class _G:
         names = [nm for nm, t in scope.items() if t == ty]
         r = self.r()
         if names and r < 0.8:
+            pool = names
+            # role separation: the operands of one statement (predicate / index / data / closure of a
+            # body) preferably depend on *different* inputs, so that a change tag that ignores one
+            # operand role is observable
+            if self.r() < 0.6:
+                deps = self.spec.deps
+                disj = [nm for nm in names if deps.get(nm) and not (deps[nm] & self.cur)]
+                if disj:
+                    pool = disj
             # prefer variables that have not been consumed yet (keeps dataflow connected)
-            unused = [nm for nm in names if nm not in self.used]
-            nm = self.choice(unused) if (unused and self.r() < 0.6) else self.choice(names)
+            unused = [nm for nm in pool if nm not in self.used]
+            nm = self.choice(unused) if (unused and self.r() < 0.6) else self.choice(pool)
             self.used.add(nm)
+            self.cur = self.cur | self.spec.deps.get(nm, frozenset())
             return nm
         if ty == "f":
             if allow_lit and self.r() < 0.5:
@@ -968,14 +979,14 @@ class _G:
         kinds = [
             ("unary", 10), ("binary", 12), ("compare", 4), ("bool", 2), ("where", 5), ("wherev", 2),
             ("static_index", 5), ("dyn_index", 6), ("reduce", 5), ("vec1", 4), ("int", 5), ("bcast", 3),
-            ("multi", 8), ("matvec", 2), ("lit_arith", 3),
+            ("multi", 8), ("matvec", 2), ("lit_arith", 3), ("call", 6),
         ]
         if depth > 0:
             kinds += [("cond", 7), ("switch", 3), ("scan", 7), ("fori", 4), ("while", 5)]
         if want == "f":
-            kinds = [k for k in kinds if k[0] in ("unary", "binary", "where", "static_index", "dyn_index", "reduce", "multi", "cond", "scan", "fori", "while", "lit_arith")]
+            kinds = [k for k in kinds if k[0] in ("unary", "binary", "where", "static_index", "dyn_index", "reduce", "multi", "cond", "scan", "fori", "while", "lit_arith", "call")]
         elif want == "v":
-            kinds = [k for k in kinds if k[0] in ("unary", "binary", "where", "wherev", "vec1", "bcast", "multi", "matvec", "scan", "cond", "dyn_index", "static_index")]
+            kinds = [k for k in kinds if k[0] in ("unary", "binary", "where", "wherev", "vec1", "bcast", "multi", "matvec", "scan", "cond", "dyn_index", "static_index", "call")]
         w = np.asarray([k[1] for k in kinds], dtype=float)
         kind = kinds[int(self.rng.choice(len(kinds), p=w / w.sum()))][0]
         return getattr(self, "s_" + kind)(scope, depth, want)
@@ -997,6 +1008,16 @@ class _G:
             params["c"] = self.lit()
         self.spec.features.add(op if op in ("relu", "cvjp", "ckpt", "njit", "stopg") else "arith")
         return Stmt(op, [(self.fresh(), ty)], [a], params)
+
+    def s_call(self, scope, depth, want):
+        """Primitives that carry sub-functions / sub-jaxprs: custom_jvp_call, custom_vjp_call,
+        remat, pjit."""
+        ty = self._xty(scope, want)
+        op = self.choice(["relu", "softplus", "cvjp", "ckpt", "njit", "cjvp", "cjvp"])
+        self.spec.features.add(op)
+        if op == "cjvp":
+            return Stmt(op, [(self.fresh(), ty)], [self.pick_var(scope, ty), self.pick_var(scope, ty)])
+        return Stmt(op, [(self.fresh(), ty)], [self.pick_var(scope, ty)])
 
     def s_binary(self, scope, depth, want):
         ty = self._xty(scope, want)
@@ -1383,6 +1404,7 @@ def generate(rng, cfg=None):
             nconst = len(spec.consts)
             used_before = set(g.used)
             feats_before = set(spec.features)
+            g.cur = frozenset()
             st = g.gen_stmt(scope, cfg.depth)
             ok = st is not None
             if ok:
@@ -1478,3 +1500,115 @@ def describe(spec):
         "depth": spec.depth,
         "wrapper": spec.wrapper,
     }
+
+
+# ------------------------------------------------------------------------------- fixed corpus
+# Hand-written functions outside the random grammar (PRNG keys, transforms used inside the
+# function, None / empty / bare outputs, integer and small-float dtypes).  Inputs are fixed, so the
+# verdict on them does not depend on the seed.  Oracle: ordinary evaluation in the same mode.
+
+
+def corpus():
+    import jax
+    import jax.numpy as jnp
+
+    f32 = lambda x: jnp.asarray(x, dtype=jnp.float32)  # noqa
+    logits = f32([0.1, 1.3, -0.7, 0.4])
+
+    def prng(key, x):
+        k1, k2 = jax.random.split(key)
+        n = jax.random.normal(k1, (3,)) * x
+        u = jax.random.uniform(k2)
+        c = jax.random.categorical(k1, logits * x)
+        return n, (u, c), key, jax.random.key_data(k2)
+
+    def prng_loop(key, x):
+        def body(i, s):
+            k, acc = s
+            return jax.random.fold_in(k, i), acc + jax.random.normal(k) * x
+
+        k, acc = jax.lax.fori_loop(0, 3, body, (key, x))
+        return acc, jax.random.bernoulli(k, 0.5)
+
+    def transforms_inside(x, v):
+        g = jax.grad(lambda a: jnp.sum(jnp.sin(a * v)))(x)
+        h = jax.jvp(jnp.tanh, (v,), (v,))[1]
+        hv = jax.vmap(lambda e: e * x + 1.0)(v)
+        vg, = jax.vjp(lambda a: a * a, v)[1](v)
+        return g, h, hv, vg
+
+    def map_assoc(v, w):
+        a = jax.lax.map(lambda e: e * 2.0 + 1.0, v)
+        b = jax.lax.associative_scan(jnp.add, w)
+        c = jnp.einsum("i,i->", v, v)
+        return a, b, c, jnp.convolve(v, f32([0.5, 0.25]), mode="same")
+
+    def tree_out(d):
+        return {"k": (d["a"], [d["b"]["c"] * 2.0, None]), "z": (), "lit": 3}
+
+    def nothing(x):
+        return ()
+
+    def identity(x, y):
+        return x
+
+    def bare_literal(x):
+        return 3.0
+
+    def int_bool(i, b, x):
+        return i << 1, i // 3, jnp.logical_and(b, i > 2), jnp.where(b, i, -i), i.astype(jnp.float32) / 2.0 + x, i ^ 5, jnp.bitwise_not(i)
+
+    def dtype_zoo(x):
+        return (x.astype(jnp.bfloat16) * 2, x.astype(jnp.float16) + 1, (x * 10).astype(jnp.int8), jnp.uint32(7) + (x > 0), jnp.asarray(x, dtype=jnp.complex64) * (1 + 2j))
+
+    key = jax.random.key(20260921)
+    cases = [
+        ("prng", prng, (key, f32(1.5))),
+        ("prng-loop", prng_loop, (key, f32(0.75))),
+        ("transforms-inside", transforms_inside, (f32(0.625), f32([0.5, -1.25, 2.0]))),
+        ("map-assoc-einsum", map_assoc, (f32([0.5, -1.25, 2.0]), f32([1.0, 0.25, -0.5]))),
+        ("tree-out-none-empty", tree_out, ({"a": f32(2.0), "b": {"c": f32([1.0, 2.0])}},)),
+        ("no-outputs", nothing, (f32(1.0),)),
+        ("identity-unused-input", identity, (f32(1.0), f32([2.0, 3.0]))),
+        ("bare-literal", bare_literal, (f32(1.0),)),
+        ("int-bool", int_bool, (jnp.asarray(5, dtype=jnp.int32), jnp.asarray(True), f32(0.5))),
+        ("dtype-zoo", dtype_zoo, (f32(1.375),)),
+    ]
+    return cases
+
+
+def is_key(x):
+    import jax
+
+    try:
+        return jax.dtypes.issubdtype(x.dtype, jax.dtypes.prng_key)
+    except Exception:
+        return False
+
+
+def leaf_to_np(x):
+    """numpy view of an output / input leaf (typed PRNG keys through key_data)."""
+    import jax
+
+    if is_key(x):
+        return np.asarray(jax.random.key_data(x))
+    return np.asarray(x)
+
+
+def perturb_any(x, kind):
+    """Perturbation `kind` (0..3) of an arbitrary array leaf (float, int, bool, PRNG key)."""
+    import jax
+    import jax.numpy as jnp
+
+    if is_key(x):
+        return jax.random.key(1000 + kind)
+    a = np.asarray(x)
+    if a.dtype.kind == "f":
+        out = [np.where(a == 0, 1.0, -a), a + 0.37, np.where(a == 0, 0.11, a * 2.0), a * 0.5 - 1.7][kind]
+    elif a.dtype.kind in "iu":
+        out = [a + 1, a - 1, a * 2 + 1, 7 - a][kind]
+        if np.array_equal(out, a):
+            out = a + 3
+    else:
+        out = np.logical_not(a)
+    return jnp.asarray(out.astype(a.dtype))
